@@ -12,8 +12,63 @@ RULE = ('G-sel graphs (incl. zero choices, forced choices, incompatibilities) x 
         'non-trivial = at least 2 valid rows; distinct = graph')
 TRUSTED = ['the encoding description E is read from GraphProcessor.all_des_vars']
 PARTIAL = []
-batches = _proc.make_batches('C14', ['fast'], 500, 6000, cons_prob=0.25)
-run_case = _proc.make_run_case(CLAUSES, vec_limit=200)
-compare = _proc.compare
-shrink_candidates = _proc.shrink_candidates
-match_known = dsgcase.match_known
+RULE += ('; second batch: FastHierarchyAnalyzer._iter_neighborhood on generated (option counts 1-5, requested values in and out of '
+         'range, fixed flags, 0-4 variables) = the extracted neighborhood (same vectors in the same order)')
+_sel_batches = _proc.make_batches('C14', ['fast'], 500, 6000, cons_prob=0.25)
+_sel_run = _proc.make_run_case(CLAUSES, vec_limit=200)
+
+
+def batches(tier, seed):
+    for b_ in _sel_batches(tier, seed):
+        yield b_
+    from common import rng_for
+    rng = rng_for(seed, 'C14-nb')
+    cases = []
+    for i in range(150 if tier == 'quick' else 2000):
+        k = rng.choice([0, 1, 1, 2, 2, 3, 3, 4])
+        vs = []
+        for _ in range(k):
+            n = rng.randint(1, 5)
+            cur = rng.randrange(n) if rng.random() < 0.85 else rng.choice([-1, n, n + 1, -2])
+            vs.append([n, cur, rng.random() < 0.25])
+        cases.append({'_nb': True, 'vs': vs, '_i': i})
+    yield 'neighbourhood-order', cases
+
+
+def run_case(case):
+    if not case.get('_nb'):
+        return _sel_run(case)
+    from common import sx
+    from adsg_core.optimization.hierarchy.fast import FastHierarchyAnalyzer
+    vs = case['vs']
+    a = FastHierarchyAnalyzer.__new__(FastHierarchyAnalyzer)
+    a.__dict__['n_opts'] = [v[0] for v in vs]
+    try:
+        got = [[int(x) for x in t] for t in a._iter_neighborhood([v[1] for v in vs], [bool(v[2]) for v in vs])]
+    except Exception as e:
+        return {'fail': {'clause': 'iter-neighborhood-raises:%s' % type(e).__name__, 'detail': '%s: %s' % (vs, e)}, 'tags': ['nb']}
+    return {'queries': [sx(['neighborhood', [[v[0], v[1], bool(v[2])] for v in vs]])], 'impl': {'nb': got},
+            'nontrivial': len(got) >= 2, 'tags': ['nb', 'nb-size=%d' % min(len(got), 50)]}
+
+
+def compare(case, r, ms):
+    if case.get('_nb'):
+        want = [[int(x) for x in t] for t in ms[0]]
+        if want != r['impl']['nb']:
+            return {'clause': 'neighbourhood-order-differs-from-model', 'detail': '%s: implementation %s model %s' % (case['vs'], r['impl']['nb'][:12], want[:12])}
+        return None
+    return _proc.compare(case, r, ms)
+
+def shrink_candidates(case):
+    if case.get('_nb'):
+        for k in range(len(case['vs'])):
+            yield dict(case, vs=case['vs'][:k] + case['vs'][k + 1:])
+        return
+    for c in _proc.shrink_candidates(case):
+        yield c
+
+
+def match_known(case, fail, known):
+    if case.get('_nb'):
+        return None
+    return dsgcase.match_known(case, fail, known)
